@@ -79,7 +79,7 @@ pub fn check_inv(inv : &Inv, runner : &Runner, is_last : bool, mut stats : Optio
                         {
                             s.inc("c17.forced_reexecutions_with_record");
                             s.distinct.insert(H64::new().u64(shape_hash(&inv.rules)).u64(r as u64).u64(rule.targets.len() as u64).u64(differing.len() as u64)
-                                .u64(rule.sorted_targets().iter().enumerate().map(|(i, t)| if differing.contains(t) { 1u64 << i } else { 0 }).sum())
+                                .u64(rule.sorted_targets().iter().enumerate().map(|(i, t)| if differing.contains(t) { 1u64 << (i % 64) } else { 0 }).sum())
                                 .u64(inv.before.is_file(&rule.sorted_targets()[0]) as u64).get());
                         }
                         if differing.len() > 0
